@@ -142,6 +142,10 @@ func (fv *FuncVC) execInstr(in ssa.Instruction) {
 	case *ssa.FieldAddr:
 		base := fv.val(x.X)
 		fv.nonNil(base, x.Pos())
+		fv.execGuardedAccess(x, base)
+		if len(fv.g.spec.Guarded) > 0 && guardUsesPlain(x) {
+			fv.guardDeep(x.X, guardAccessIsWrite(x), "field access", x.Pos())
+		}
 		p := fv.placeFromPointer(base)
 		fp := fv.fieldPlace(p, x.Field)
 		fv.setReg(x, &Val{T: "0", Typ: x.Type(), Place: fp})
@@ -354,6 +358,9 @@ func (fv *FuncVC) execUnOp(x *ssa.UnOp) {
 	case token.MUL: // load
 		addr := fv.val(x.X)
 		fv.nonNil(addr, x.Pos())
+		if len(fv.g.spec.Guarded) > 0 {
+			fv.guardDeep(x.X, false, "copied", x.Pos())
+		}
 		p := fv.placeFromPointer(addr)
 		v := fv.loadPlace(fv.cur, p)
 		s := fv.sortOf(x.Type())
